@@ -126,7 +126,7 @@ func (a *AcctRequest) Validate() error {
 			return err
 		}
 	}
-	return nil
+	return fitsLen(0xff, a.User.Len(), a.Port.Len(), a.RemAddr.Len(), len(a.Args))
 }
 
 // MarshalBinary marshals AccountingRequest to tacacs bytes
@@ -291,7 +291,7 @@ func (a *AcctReply) Validate() error {
 			return err
 		}
 	}
-	return nil
+	return fitsLen(0xffff, a.ServerMsg.Len(), a.Data.Len())
 }
 
 // MarshalBinary marshals AccountingReply to tacacs bytes
